@@ -1,6 +1,6 @@
 (* Proofs/C21.v — crash safety of the storage operations of Model/Crash.v *)
 From Coq Require Import List NArith ZArith Arith Lia Bool String.
-From GoGit Require Import Base.Out Gen.C22 Model.Gc Model.Crash Spec.RepoOk Proofs.C22 Proofs.CrashFacts.
+From GoGit Require Import Base.Out Gen.C22 Model.Gc Model.Crash Spec.Reach Spec.RepoOk Proofs.C22 Proofs.CrashFacts.
 Import ListNotations.
 Local Open Scope N_scope.
 
@@ -532,4 +532,441 @@ Proof.
   - (* no packed-refs file *)
     cbn [app]. apply Final; [exact R|].
     intros l' m o Hp. revert Hp. unfold packed_refs. rewrite Ep. intro Hp; inversion Hp. intros [].
+Qed.
+
+(* ---------- PackRefs ---------- *)
+
+Lemma flookup_fold_fdel ns : forall fs q,
+  flookup (fold_left fdel (map PRef ns) fs) q =
+  match q with PRef m => if existsb (String.eqb m) ns then None else flookup fs q | _ => flookup fs q end.
+Proof.
+  induction ns as [|n ns IH]; intros fs q; cbn [map fold_left existsb].
+  - destruct q; reflexivity.
+  - rewrite IH. destruct q; try (rewrite flookup_fdel; reflexivity).
+    rewrite flookup_fdel. cbn [path_eqb]. rewrite (String.eqb_sym n0 n).
+    destruct (String.eqb n n0); cbn [orb]; [destruct (existsb _ ns); reflexivity|reflexivity].
+Qed.
+
+Lemma remove_prefixes_spec ps : forall fs s, In s (remove_prefixes ps fs) ->
+  exists ps', s = fold_left fdel ps' fs /\ exists r, ps = ps' ++ r.
+Proof.
+  induction ps as [|p r IH]; intros fs s H; cbn in H; [destruct H|].
+  destruct r as [|p' r']; [destruct H|].
+  destruct H as [<-|H].
+  - exists [p]. split; [reflexivity|]. now exists (p' :: r').
+  - destruct (IH _ _ H) as (ps' & -> & r0 & E). exists (p :: ps'). split; [reflexivity|].
+    exists r0. cbn. now rewrite E.
+Qed.
+
+Lemma in_loose_hash_refs fs m o :
+  In (m, o) (loose_hash_refs fs) -> flookup fs (PRef m) = Some (Whole (DRef (RHash o))).
+Proof.
+  unfold loose_hash_refs. intro H. apply in_flat_map in H as (n & _ & H).
+  destruct (flookup fs (PRef n)) as [[[[]| | | | | | | |]| |]|] eqn:E; cbn in H; try contradiction.
+  destruct H as [H|[]]. inversion H; subst. assumption.
+Qed.
+
+Lemma packrefs_safe g fs : repo_ok g fs -> crash_safe g fs (op_packrefs fs).
+Proof.
+  intro R. unfold crash_safe, op_packrefs.
+  assert (RF := repo_ok_ref_files _ _ R).
+  assert (PK : packed_okP fs = true) by (destruct R as [F _]; apply files_ok_iff in F; tauto).
+  unfold packed_okP in PK. destruct (packed_refs fs) as [old|] eqn:Eold; [|discriminate]. clear PK.
+  set (all := loose_hash_refs fs ++ filter (fun e => negb (is_loose_name fs (fst e))) old).
+  (* any state that differs from fs by: packed-refs being empty-or-old-or-all, a temp file, some loose refs removed *)
+  assert (Gen : forall s l',
+            (forall q, (q = PHead \/ q = PShallow \/ q = PIndex \/ q = PConfig \/ (exists o, q = PLoose o) \/ (exists n x, q = PPackF n x)) ->
+                       flookup s q = flookup fs q) ->
+            (forall m, flookup s (PRef m) = flookup fs (PRef m) \/ flookup s (PRef m) = None) ->
+            packed_refs s = Some l' ->
+            (forall m o, In (m, o) l' -> flookup s (PRef m) = None -> In o (ref_roots fs)) ->
+            repo_ok g s).
+  { intros s l' Same Refs Pk Hl. apply (refs_state g fs); try exact R; try assumption.
+    - intro m. unfold ref_file_ok. destruct (Refs m) as [->| ->]; [apply RF|reflexivity].
+    - unfold packed_okP. now rewrite Pk.
+    - intros m o H. destruct (Refs m) as [E|E]; rewrite E in H; [now apply in_roots_loose in H|discriminate].
+    - intros l'' m o Hp Hin Hn. rewrite Pk in Hp. inversion Hp; subst. eapply Hl; eassumption. }
+  assert (Hold : forall m o, In (m, o) old -> flookup fs (PRef m) = None -> In o (ref_roots fs))
+    by (intros; eapply in_roots_packed; eassumption).
+  assert (Hall : forall m o, In (m, o) all -> In o (ref_roots fs)).
+  { intros m o H. apply in_app_or in H as [H|H].
+    - apply in_loose_hash_refs in H. now apply in_roots_loose in H.
+    - apply filter_In in H as [H Hn]. cbn in Hn. apply negb_true_iff in Hn. unfold is_loose_name in Hn.
+      apply fexists_false in Hn. now apply (Hold m o). }
+  rewrite crash_states_app. apply Forall_app. split.
+  - (* packed-refs created empty *)
+    destruct (fexists fs PPacked) eqn:Ex; cbn [crash_states mid_states apply]; split_states.
+    apply fexists_false in Ex.
+    apply (Gen _ []); try (intros q Hq; flk; destruct Hq as [->|[->|[->|[->|[(o & ->)|(m & x & ->)]]]]]; reflexivity).
+    + intro m. left. flk. reflexivity.
+    + unfold packed_refs. flk. reflexivity.
+    + intros m o [].
+  - destruct (ref_names fs) as [|n0 ns0] eqn:En; [constructor|]. rewrite <- En. clear En n0 ns0.
+    set (s0 := run (if fexists fs PPacked then [] else [MCreate PPacked]) fs).
+    assert (S0 : forall q, q <> PPacked -> flookup s0 q = flookup fs q).
+    { intros q Hq. unfold s0. destruct (fexists fs PPacked); cbn [run fold_left apply]; [reflexivity|]. now rewrite flookup_other. }
+    assert (P0 : packed_refs s0 = Some old).
+    { unfold s0. destruct (fexists fs PPacked) eqn:Ex; cbn [run fold_left apply]; [assumption|].
+      apply fexists_false in Ex. unfold packed_refs in *. flk. rewrite Ex in Eold. exact Eold. }
+    cbn [crash_states mid_states apply]. flk. rewrite ?Nat.eqb_refl. cbn [andb].
+    assert (T0 : forall c q, q <> PPacked -> q <> PTmp TPRefs 0 -> flookup (fset (fset s0 (PTmp TPRefs 0) Empty) (PTmp TPRefs 0) c) q = flookup fs q)
+      by (intros c q H1 H2; now rewrite !flookup_other, S0).
+    assert (Told : forall c, repo_ok g (fset (fset s0 (PTmp TPRefs 0) Empty) (PTmp TPRefs 0) c)).
+    { intro c. apply (Gen _ old).
+      - intros q Hq. apply T0; destruct Hq as [->|[->|[->|[->|[(o & ->)|(m & x & ->)]]]]]; discriminate.
+      - intro m. left. apply T0; discriminate.
+      - revert P0. unfold packed_refs. now rewrite !flookup_other by discriminate.
+      - intros m o Hin Hn. rewrite T0 in Hn by discriminate. now apply (Hold m o). }
+    set (sr := fset (fdel (fset (fset s0 (PTmp TPRefs 0) Empty) (PTmp TPRefs 0) (Whole (DPackedRefs all))) (PTmp TPRefs 0)) PPacked (Whole (DPackedRefs all))).
+    assert (SR : forall q, q <> PPacked -> q <> PTmp TPRefs 0 -> flookup sr q = flookup fs q).
+    { intros q H1 H2. unfold sr. rewrite flookup_other, flookup_del_other by assumption. now apply T0. }
+    assert (Tdel : forall ns, repo_ok g (fold_left fdel (map PRef ns) sr)).
+    { intro ns. apply (Gen _ all).
+      - intros q Hq. rewrite flookup_fold_fdel.
+        destruct Hq as [->|[->|[->|[->|[(o & ->)|(m & x & ->)]]]]]; apply SR; discriminate.
+      - intro m. rewrite flookup_fold_fdel. destruct (existsb (String.eqb m) ns); [now right|left; apply SR; discriminate].
+      - unfold packed_refs. rewrite flookup_fold_fdel. unfold sr. flk. reflexivity.
+      - intros m o Hin _. now apply (Hall m o). }
+    split_states.
+    + apply (Gen _ old).
+      * intros q Hq. rewrite flookup_other, S0; [reflexivity| |]; destruct Hq as [->|[->|[->|[->|[(o & ->)|(m & x & ->)]]]]]; discriminate.
+      * intro m. left. rewrite flookup_other, S0; [reflexivity| |]; discriminate.
+      * revert P0. unfold packed_refs. now rewrite flookup_other by discriminate.
+      * intros m o Hin Hn. rewrite flookup_other, S0 in Hn by discriminate. now apply (Hold m o).
+    + apply Told.
+    + apply Told.
+    + apply (Tdel []).
+    + apply Forall_app. split.
+      * apply Forall_forall. intros s Hs. apply remove_prefixes_spec in Hs as (ps' & -> & r & E).
+        assert (exists ns', ps' = map PRef ns') as (ns' & ->).
+        { clear -E. revert ps' r E. generalize (ssort (ref_names fs)). intros l ps'. revert l.
+          induction ps' as [|p ps IH]; intros l r E; [now exists []|].
+          destruct l as [|x l]; [discriminate|]. cbn in E. inversion E; subst.
+          destruct (IH _ _ H1) as (ns & ->). now exists (x :: ns). }
+        apply Tdel.
+      * constructor; [apply Tdel|constructor].
+Qed.
+
+(* ---------- Prune and RepackObjects: the link to the C22 walker ---------- *)
+
+Lemma In_insert_n x y l : In x (insert_n y l) <-> x = y \/ In x l.
+Proof.
+  induction l as [|z l IH]; cbn [insert_n].
+  - cbn. intuition congruence.
+  - destruct (y =? z) eqn:E.
+    + apply N.eqb_eq in E. subst. cbn. intuition congruence.
+    + destruct (y <? z); cbn [In]; [intuition congruence|]. rewrite IH. intuition congruence.
+Qed.
+
+Lemma In_sort_n x l : In x (sort_n l) <-> In x l.
+Proof.
+  unfold sort_n. induction l as [|y l IH]; cbn [fold_right]; [tauto|].
+  rewrite In_insert_n, IH. cbn. intuition congruence.
+Qed.
+
+Lemma in_loose_ids fs o : In o (loose_ids fs) <-> loose_ok fs o = true.
+Proof.
+  unfold loose_ids. rewrite filter_In, In_sort_n. split; [tauto|]. intro H. split; [|assumption].
+  unfold loose_keys. apply in_flat_map. exists (PLoose o). split; [|now left].
+  apply flookup_keys. unfold loose_ok in H. destruct (flookup fs (PLoose o)); [congruence|discriminate].
+Qed.
+
+Lemma stored_to_repo g fs ol op o : stored (to_repo g fs ol op) o = true <-> avail fs o = true.
+Proof.
+  unfold stored, to_repo. cbn [loose packs]. rewrite orb_true_iff, avail_iff.
+  rewrite map_map. cbn [fst]. rewrite map_id, mem_In, in_loose_ids.
+  rewrite existsb_exists. split.
+  - intros [H|(p & Hp & Hm)]; [now left|right].
+    apply in_map_iff in Hp as ([n os] & <- & Hin). cbn [p_objs fst snd] in Hm.
+    unfold pack_files in Hin. apply in_flat_map in Hin as (n' & _ & Hin).
+    destruct (pack_objs fs n') as [os'|] eqn:E; [|destruct Hin]. destruct Hin as [Hin|[]]. inversion Hin; subst.
+    exists n. unfold in_pack. rewrite E. destruct (idx_ok fs n os); [assumption|discriminate].
+  - intros [H|(n & H)]; [now left|right].
+    unfold in_pack in H. destruct (pack_objs fs n) as [os|] eqn:E; [|discriminate].
+    apply andb_true_iff in H as [Hi Hm].
+    exists {| p_old := existsb (String.eqb n) op; p_promisor := pack_is_promisor fs n; p_objs := if idx_ok fs n os then os else [] |}.
+    split; [|cbn; now rewrite Hi].
+    apply in_map_iff. exists (n, os). split; [reflexivity|].
+    unfold pack_files. apply in_flat_map. exists n. split; [|rewrite E; now left].
+    apply in_pack_names. unfold pack_objs in E. destruct (flookup fs (PPackF n XPack)); [congruence|discriminate].
+Qed.
+
+Lemma get_to_repo g fs ol op o : avail fs o = true -> get (to_repo g fs ol op) o = assoc g o.
+Proof. intro H. unfold get. apply stored_to_repo with (g := g) (ol := ol) (op := op) in H. now rewrite H. Qed.
+
+Lemma gitlink_submodule m : is_gitlink m = false -> m <> filemode_Submodule.
+Proof. intros H ->. vm_compute in H. discriminate. Qed.
+
+Lemma reach_roots r rs rs' h : (forall x, In x rs -> In x rs') -> reach r rs h -> reach r rs' h.
+Proof. intros H Hr. induction Hr; [apply reach_root; auto|eapply reach_step; eassumption]. Qed.
+
+Lemma needed_live g fs ol op o :
+  repo_ok g fs -> needed g (ref_roots fs) (shallow_list fs) o -> live (to_repo g fs ol op) o.
+Proof.
+  intros [_ N] Hn. unfold live.
+  apply reach_roots with (rs := ref_roots fs); [intros; apply in_or_app; now left|].
+  induction Hn as [o Hr|o c Hn IH Hk]; [now apply reach_root|].
+  apply reach_step with (h := o); [assumption|].
+  destruct (N o Hn) as [Ha _]. unfold child. rewrite (get_to_repo _ _ _ _ _ Ha).
+  unfold kid in Hk. destruct (assoc g o) as [[|es|t ps|t]|]; try contradiction.
+  - destruct Hk as (m & Hin & Hg). exists m. split; [assumption|now apply gitlink_submodule].
+  - destruct Hk as [->|[Hs Hin]]; [now left|right]. split; [|assumption].
+    cbn [shallow to_repo]. unfold shallow_list in Hs. exact Hs.
+  - assumption.
+Qed.
+
+Lemma needed_seen g fs ol op fuel st o :
+  let r := to_repo g fs ol op in
+  wf_modes r = true -> wf_index r = true -> walk_all fuel r = Ok st ->
+  repo_ok g fs -> needed g (ref_roots fs) (shallow_list fs) o -> In o st.(seen) /\ ~ In o st.(missing).
+Proof.
+  intros r Wm Wi Hw R Hn.
+  destruct (walk_all_live fuel r st Wm Wi Hw) as [Hl Hm].
+  destruct R as [F N]. destruct (N o Hn) as [Ha Hk].
+  assert (Hg : get r o = assoc g o) by now apply get_to_repo.
+  split.
+  - destruct (Hl o (needed_live g fs ol op o (conj F N) Hn)) as [H|H]; [assumption|]. fold r in H. congruence.
+  - intro Hmi. apply Hm in Hmi. unfold has in Hmi. rewrite Hg in Hmi. destruct (assoc g o); congruence.
+Qed.
+
+Lemma flookup_fold_fdel_loose ds : forall fs q,
+  flookup (fold_left fdel (map PLoose ds) fs) q =
+  match q with PLoose o => if mem o ds then None else flookup fs q | _ => flookup fs q end.
+Proof.
+  induction ds as [|d ds IH]; intros fs q; cbn [map fold_left].
+  - destruct q; reflexivity.
+  - rewrite IH. destruct q; try (rewrite flookup_fdel; reflexivity).
+    rewrite flookup_fdel. cbn [path_eqb]. unfold mem. cbn [existsb]. rewrite (N.eqb_sym o d).
+    destruct (d =? o); cbn [orb]; [destruct (existsb (N.eqb o) ds); reflexivity|reflexivity].
+Qed.
+
+Lemma prefix_map_loose l : forall ps' r, map PLoose l = ps' ++ r -> exists l', ps' = map PLoose l' /\ exists r', l = l' ++ r'.
+Proof.
+  induction l as [|x l IH]; intros ps' r E.
+  - destruct ps'; [exists []; split; [reflexivity|now exists []]|discriminate].
+  - destruct ps' as [|p ps]; [exists []; split; [reflexivity|now exists (x :: l)]|].
+    cbn in E. inversion E; subst. destruct (IH _ _ H1) as (l' & -> & r' & ->).
+    exists (x :: l'). split; [reflexivity|now exists r'].
+Qed.
+
+(* removing loose objects that are not needed keeps the repository fine *)
+Lemma remove_unneeded_loose g fs ds :
+  repo_ok g fs ->
+  (forall o, needed g (ref_roots fs) (shallow_list fs) o -> In o ds -> exists n, in_pack fs o n = true) ->
+  repo_ok g (fold_left fdel (map PLoose ds) fs).
+Proof.
+  intros R H. set (s := fold_left fdel (map PLoose ds) fs).
+  assert (Am : agree_meta fs s) by (intros q Hq; unfold s; rewrite flookup_fold_fdel_loose; destruct q; cbn in Hq; try discriminate; reflexivity).
+  assert (Pk : forall n x, flookup s (PPackF n x) = flookup fs (PPackF n x)) by (intros; unfold s; now rewrite flookup_fold_fdel_loose).
+  assert (Ip : forall x n, in_pack s x n = in_pack fs x n) by (intros; unfold in_pack, pack_objs, idx_ok; now rewrite !Pk).
+  destruct R as [F N]. split.
+  - apply files_ok_iff. apply files_ok_iff in F as (H1 & H2 & H3 & H4 & H5 & H6 & H7).
+    unfold head_okP, packed_okP, shallow_okP, index_okP, config_okP, ref_file_ok, pack_file_ok, idx_ok in *.
+    rewrite (meta_packed _ _ Am), (meta_shallow _ _ Am), !Am by reflexivity. repeat split; try assumption.
+    + intro n. rewrite Am by reflexivity. apply H2.
+    + intro n. rewrite !Pk. apply H5.
+  - intros o Hn. unfold shallow_list in Hn. rewrite (meta_shallow _ _ Am) in Hn.
+    assert (Hn' := needed_roots _ _ _ _ _ (fun x => meta_roots fs s x Am) Hn).
+    destruct (N o Hn') as [Ha Hk]. split; [|assumption].
+    apply avail_iff. apply avail_iff in Ha as [Ha|(n & Ha)].
+    + destruct (mem o ds) eqn:Ed.
+      * apply mem_In in Ed. destruct (H o Hn' Ed) as (n & Hp). right. exists n. now rewrite Ip.
+      * left. unfold loose_ok, s. rewrite flookup_fold_fdel_loose, Ed. exact Ha.
+    + right. exists n. now rewrite Ip.
+Qed.
+
+Lemma prune_safe g fs ol lim :
+  let r := to_repo g fs ol [] in
+  wf_modes r = true -> wf_index r = true ->
+  repo_ok g fs -> crash_safe g fs (op_prune g fs ol lim).
+Proof.
+  intros r Wm Wi R. unfold crash_safe, op_prune. fold r.
+  destruct (walk_all (S (List.length g)) r) as [st|e] eqn:Hw; [|constructor].
+  set (del := filter (fun o => negb (mem o st.(seen) || (lim && negb (mem o ol)))) (loose_ids fs)).
+  assert (Hdel : forall ds, (forall o, In o ds -> In o del) -> repo_ok g (fold_left fdel (map PLoose ds) fs)).
+  { intros ds Hds. apply remove_unneeded_loose; [assumption|].
+    intros o Hn Hin. exfalso. apply Hds in Hin. unfold del in Hin. apply filter_In in Hin as [_ Hin].
+    apply negb_true_iff, orb_false_iff in Hin as [Hs _]. apply mem_nIn in Hs.
+    destruct (needed_seen g fs ol [] _ st o Wm Wi Hw R Hn) as [Hseen _]. contradiction. }
+  destruct del as [|d0 del'] eqn:Ed; [constructor|]. rewrite <- Ed in *. clear Ed d0 del'.
+  cbn [crash_states mid_states apply]. apply Forall_app. split.
+  - apply Forall_forall. intros s Hs. apply remove_prefixes_spec in Hs as (ps' & -> & rr & E).
+    destruct (prefix_map_loose _ _ _ E) as (l' & -> & r' & E'). apply Hdel.
+    intros o Ho. rewrite E'. apply in_or_app. now left.
+  - constructor; [|constructor]. apply Hdel. auto.
+Qed.
+
+(* ---------- RepackObjects ---------- *)
+
+Lemma flookup_fold_fdel_gen ps : forall fs q,
+  flookup (fold_left fdel ps fs) q = if existsb (path_eqb q) ps then None else flookup fs q.
+Proof.
+  induction ps as [|p ps IH]; intros fs q; cbn [fold_left existsb]; [reflexivity|].
+  rewrite IH, flookup_fdel, (path_eqb_sym q p).
+  destruct (path_eqb p q); cbn [orb]; [destruct (existsb _ ps); reflexivity|reflexivity].
+Qed.
+
+Lemma existsb_path q ps : existsb (path_eqb q) ps = true <-> In q ps.
+Proof.
+  rewrite existsb_exists. split.
+  - intros (x & Hx & E). apply path_eqb_eq in E. now subst.
+  - intro H. exists q. split; [assumption|apply path_eqb_refl].
+Qed.
+
+Lemma in_pack_exts fs n q : In q (pack_exts fs n) -> exists x, q = PPackF n x.
+Proof.
+  unfold pack_exts. intro H. apply filter_In in H as [H _].
+  cbn in H. destruct H as [<-|[<-|[<-|[<-|[]]]]]; eauto.
+Qed.
+
+(* in the list of old pack files to delete, a pack always goes before its idx *)
+Lemma pack_before_idx fs (keep : string -> bool) names : forall pre post,
+  flat_map (fun n => if keep n then [] else pack_exts fs n) names = pre ++ post ->
+  forall n, In (PPackF n XIdx) pre -> In (PPackF n XPack) pre \/ flookup fs (PPackF n XPack) = None.
+Proof.
+  induction names as [|n0 ns IH]; intros pre post E n Hin; cbn [flat_map] in E.
+  - destruct pre; [destruct Hin|discriminate].
+  - set (B := if keep n0 then [] else pack_exts fs n0) in E.
+    assert (HB : forall q, In q B -> exists x, q = PPackF n0 x).
+    { intros q Hq. unfold B in Hq. destruct (keep n0); [destruct Hq|now apply in_pack_exts in Hq]. }
+    assert (HP : forall l r, B = l ++ r -> In (PPackF n0 XIdx) l -> In (PPackF n0 XPack) l \/ flookup fs (PPackF n0 XPack) = None).
+    { intros l r EB Hl. unfold B in EB. destruct (keep n0); [destruct l; [destruct Hl|discriminate]|].
+      unfold pack_exts in EB. cbn [filter] in EB.
+      destruct (fexists fs (PPackF n0 XPack)) eqn:Ex; [|right; now apply fexists_false].
+      destruct l as [|a l']; [destruct Hl|]. cbn in EB. inversion EB; subst. left. now left. }
+    apply app_eq_app in E as (l & [[E1 E2]|[E1 E2]]).
+    + (* B = pre ++ l *)
+      assert (Hq : In (PPackF n XIdx) B) by (rewrite E1; apply in_or_app; now left).
+      destruct (HB _ Hq) as (x & Ex). inversion Ex; subst n. now apply (HP pre l).
+    + (* pre = B ++ l *)
+      subst pre. apply in_app_or in Hin as [Hin|Hin].
+      * destruct (HB _ Hin) as (x & Ex). inversion Ex; subst n.
+        destruct (HP B [] (eq_sym (app_nil_r B)) Hin) as [H|H]; [left; apply in_or_app; now left|now right].
+      * destruct (IH _ _ E2 n Hin) as [H|H]; [left; apply in_or_app; now right|now right].
+Qed.
+
+Lemma repack_safe g fs op lim :
+  let r := to_repo g fs [] op in
+  wf_modes r = true -> wf_index r = true ->
+  pack_fresh fs (new_pack_name fs) = true ->
+  repo_ok g fs -> crash_safe g fs (op_repack g fs op lim).
+Proof.
+  intros r Wm Wi Fr R. unfold crash_safe, op_repack. fold r.
+  destruct (walk_all (S (List.length g)) r) as [st|e] eqn:Hw; [|constructor].
+  set (os := present st). set (name := new_pack_name fs) in *.
+  destruct (forallb (has r) os) eqn:Hhas.
+  2:{ cbn [crash_states mid_states apply]. split_states. eapply agree_repo_ok; [apply agree_set_tmp|exact R]. }
+  (* everything needed is in the new pack *)
+  assert (Hos : forall o, needed g (ref_roots fs) (shallow_list fs) o -> In o os).
+  { intros o Hn. destruct (needed_seen g fs [] op _ st o Wm Wi Hw R Hn) as [Hs Hm].
+    unfold os, present. apply filter_In. split; [assumption|]. now apply negb_true_iff, mem_nIn. }
+  assert (Fr' := Fr). unfold pack_fresh in Fr'. apply negb_true_iff in Fr'. repeat (apply orb_false_iff in Fr' as [Fr' ?]).
+  assert (F1 := fexists_false _ _ Fr'). assert (F2 := fexists_false _ _ H1).
+  (* a state in which the new pack is in place, loose objects may be gone, old packs may be (partly) gone *)
+  assert (After : forall s,
+            (forall q, meta q = true -> flookup s q = flookup fs q) ->
+            flookup s (PPackF name XPack) = Some (Whole (DPack os)) ->
+            flookup s (PPackF name XIdx) = Some (Whole (DIdx os)) ->
+            (forall n, n <> name ->
+               (flookup s (PPackF n XPack) = flookup fs (PPackF n XPack) /\ flookup s (PPackF n XIdx) = flookup fs (PPackF n XIdx))
+               \/ flookup s (PPackF n XPack) = None) ->
+            repo_ok g s).
+  { intros s Am Hp Hi Hold. destruct R as [F N]. split.
+    - apply files_ok_iff. apply files_ok_iff in F as (K1 & K2 & K3 & K4 & K5 & K6 & K7).
+      unfold head_okP, packed_okP, shallow_okP, index_okP, config_okP, ref_file_ok in *.
+      rewrite (meta_packed _ _ Am), (meta_shallow _ _ Am), !Am by reflexivity. repeat split; try assumption.
+      + intro n. rewrite Am by reflexivity. apply K2.
+      + intro n. unfold pack_file_ok, idx_ok. destruct (string_dec n name) as [->|Hne].
+        * rewrite Hp, Hi. apply ids_eqb_refl.
+        * destruct (Hold n Hne) as [[E1 E2]|E1]; [rewrite E1, E2; apply (K5 n)|now rewrite E1].
+    - intros o Hn. unfold shallow_list in Hn. rewrite (meta_shallow _ _ Am) in Hn.
+      assert (Hn' := needed_roots _ _ _ _ _ (fun x => meta_roots fs s x Am) Hn).
+      destruct (N o Hn') as [_ Hk]. split; [|assumption].
+      apply avail_iff. right. exists name. unfold in_pack, pack_objs, idx_ok. rewrite Hp, Hi, ids_eqb_refl.
+      cbn [andb]. apply mem_In. now apply Hos. }
+  set (first := [MTemp (PTmp TPack 0); MWrite (PTmp TPack 0) (DPack os)] ++ pack_save name (PTmp TPack 0) os (promisor r)).
+  rewrite app_assoc. fold first. rewrite crash_states_app. apply Forall_app. split.
+  - (* writing the pack *)
+    unfold first. rewrite crash_states_app. apply Forall_app. split.
+    + cbn [crash_states mid_states apply]. split_states;
+        (eapply agree_repo_ok; [|exact R]; intros q Hq; flk; destruct q; cbn in Hq; try discriminate; reflexivity).
+    + cbn [run fold_left apply]. apply (pack_save_safe g fs); try assumption.
+      * intros q Hq. flk. destruct q; cbn in Hq; try discriminate; reflexivity.
+      * intro x. flk. reflexivity.
+      * intros n x. flk. reflexivity.
+      * now exists 0%nat.
+      * flk. reflexivity.
+  - (* removing what the new pack replaces *)
+    set (S := run first fs).
+    assert (SL : forall q, (forall x, q <> PPackF name x) -> (forall k, q <> PTmp TPack k) -> flookup S q = flookup fs q).
+    { intros q Hq Ht. unfold S, first, pack_save. destruct (promisor r); cbn [app run fold_left apply]; flk;
+        rewrite ?Nat.eqb_refl; cbn [andb]; flk;
+        destruct q; try reflexivity; try (exfalso; eapply Ht; reflexivity);
+        cbn [path_eqb tkind_eqb]; rewrite ?andb_false_r;
+        try (destruct (String.eqb name name0) eqn:E; [apply String.eqb_eq in E; subst; exfalso; eapply Hq; reflexivity|]);
+        cbn [andb]; try reflexivity; destruct k; try reflexivity; destruct n; try reflexivity; exfalso; eapply Ht; reflexivity. }
+    assert (SP : flookup S (PPackF name XPack) = Some (Whole (DPack os)) /\ flookup S (PPackF name XIdx) = Some (Whole (DIdx os))).
+    { unfold S, first, pack_save. destruct (promisor r); cbn [app run fold_left apply]; flk;
+        rewrite ?Nat.eqb_refl, ?String.eqb_refl; cbn [andb]; flk; rewrite ?String.eqb_refl; cbn [andb]; split; reflexivity. }
+    destruct SP as [SP1 SP2].
+    (* any set of deletions that keeps the new pack and deletes an old idx only after its pack *)
+    assert (Del : forall ps,
+              (forall q, In q ps -> (exists o, q = PLoose o) \/ (exists n x, q = PPackF n x /\ n <> name)) ->
+              (forall n, In (PPackF n XIdx) ps -> In (PPackF n XPack) ps \/ flookup fs (PPackF n XPack) = None) ->
+              repo_ok g (fold_left fdel ps S)).
+    { intros ps Hps Hord. apply After.
+      - intros q Hq. rewrite flookup_fold_fdel_gen.
+        destruct (existsb (path_eqb q) ps) eqn:E.
+        + apply existsb_path in E. destruct (Hps _ E) as [(o & ->)|(n & x & -> & _)]; discriminate.
+        + apply SL; intros; destruct q; cbn in Hq; discriminate.
+      - rewrite flookup_fold_fdel_gen. destruct (existsb _ ps) eqn:E; [|assumption].
+        apply existsb_path in E. destruct (Hps _ E) as [(o & Ho)|(n & x & Ho & Hne)]; [discriminate|]. inversion Ho; congruence.
+      - rewrite flookup_fold_fdel_gen. destruct (existsb _ ps) eqn:E; [|assumption].
+        apply existsb_path in E. destruct (Hps _ E) as [(o & Ho)|(n & x & Ho & Hne)]; [discriminate|]. inversion Ho; congruence.
+      - intros n Hne. rewrite !flookup_fold_fdel_gen.
+        destruct (existsb (path_eqb (PPackF n XPack)) ps) eqn:E1; [now right|].
+        destruct (existsb (path_eqb (PPackF n XIdx)) ps) eqn:E2.
+        + apply existsb_path in E2. destruct (Hord n E2) as [K|K].
+          * apply existsb_path in K. congruence.
+          * right. rewrite SL; [assumption| |]; intros; congruence.
+        + left. split; apply SL; intros; congruence. }
+    set (Ldel := filter (fun o => mem o st.(seen)) (loose_ids fs)).
+    set (keep := fun n => lim && negb (existsb (String.eqb n) op)).
+    set (Pdel := flat_map (fun n => if keep n then [] else pack_exts fs n) (ssort (map fst (pack_files fs)))).
+    assert (HL : forall q, In q (map PLoose Ldel) -> (exists o, q = PLoose o) \/ (exists n x, q = PPackF n x /\ n <> name)).
+    { intros q Hq. apply in_map_iff in Hq as (o & <- & _). left. eauto. }
+    assert (HPd : forall q, In q Pdel -> (exists o, q = PLoose o) \/ (exists n x, q = PPackF n x /\ n <> name)).
+    { intros q Hq. unfold Pdel in Hq. apply in_flat_map in Hq as (n & _ & Hq). destruct (keep n); [destruct Hq|].
+      destruct (in_pack_exts _ _ _ Hq) as (x & ->). right. exists n, x. split; [reflexivity|].
+      intros ->. unfold pack_exts in Hq. apply filter_In in Hq as [_ Hq]. unfold fexists in Hq.
+      destruct x; [rewrite F1 in Hq|rewrite F2 in Hq|rewrite (fexists_false _ _ H0) in Hq|rewrite (fexists_false _ _ H) in Hq]; discriminate. }
+    assert (NoIdxL : forall l' n, In (PPackF n XIdx) (map PLoose l') -> False).
+    { intros l' n Hq. apply in_map_iff in Hq as (o & Ho & _). discriminate. }
+    (* the two removal runs *)
+    assert (RunL : forall l', (forall o, In o l' -> In o Ldel) -> repo_ok g (fold_left fdel (map PLoose l') S)).
+    { intros l' Hl. apply Del.
+      - intros q Hq. apply in_map_iff in Hq as (o & <- & _). left. eauto.
+      - intros n Hq. exfalso. eapply NoIdxL; eassumption. }
+    assert (RunP : forall pre post, Pdel = pre ++ post -> repo_ok g (fold_left fdel pre (fold_left fdel (map PLoose Ldel) S))).
+    { intros pre post E. rewrite <- fold_left_app. apply Del.
+      - intros q Hq. apply in_app_or in Hq as [Hq|Hq]; [now apply HL|]. apply HPd. rewrite E. apply in_or_app. now left.
+      - intros n Hq. apply in_app_or in Hq as [Hq|Hq]; [exfalso; eapply NoIdxL; eassumption|].
+        destruct (pack_before_idx fs keep _ _ _ E n Hq) as [H2|H2]; [left; apply in_or_app; now right|now right]. }
+    fold Ldel. fold keep. fold Pdel.
+    assert (StL : Forall (repo_ok g) (crash_states (match Ldel with [] => [] | o :: l => [MRemoveSet (map PLoose (o :: l))] end) S)).
+    { destruct Ldel as [|d0 dl] eqn:Ed; [constructor|]. rewrite <- Ed in *.
+      cbn [crash_states mid_states apply]. apply Forall_app. split.
+      - apply Forall_forall. intros s Hs. apply remove_prefixes_spec in Hs as (ps' & -> & rr & E).
+        destruct (prefix_map_loose _ _ _ E) as (l' & -> & r' & E'). apply RunL.
+        intros o Ho. rewrite E'. apply in_or_app. now left.
+      - constructor; [|constructor]. apply RunL. auto. }
+    rewrite crash_states_app. apply Forall_app. split; [exact StL|].
+    assert (ES : run (match Ldel with [] => [] | o :: l => [MRemoveSet (map PLoose (o :: l))] end) S = fold_left fdel (map PLoose Ldel) S).
+    { destruct Ldel; reflexivity. }
+    rewrite ES.
+    change (Forall (repo_ok g) (crash_states (match Pdel with [] => [] | p :: l => [MRemoveSet (p :: l)] end) (fold_left fdel (map PLoose Ldel) S))).
+    destruct Pdel as [|p0 pl] eqn:Ep; [constructor|]. rewrite <- Ep in *.
+    cbn [crash_states mid_states apply]. apply Forall_app. split.
+    + apply Forall_forall. intros s Hs. apply remove_prefixes_spec in Hs as (ps' & -> & rr & E). now apply (RunP ps' rr).
+    + constructor; [|constructor]. apply (RunP Pdel []). now rewrite app_nil_r.
 Qed.
